@@ -299,6 +299,7 @@ func (c *Ctx) AddGoal(g *Goal, guard, body Term) {
 var queryNoSoft bool
 
 type qopt struct {
+	Shape   string // candidate search: constraint template ("%s" = term) tried on every interface-typed parameter
 	Relaxed bool   // drop every quantified assertion (candidate models only; a model is trusted only after replay)
 	Defs    string // defining equations of the recursive spec functions, as axioms (evaluation of concrete executions)
 }
@@ -345,6 +346,17 @@ func stripQuantified(text string) string {
 				if strings.HasPrefix(form, "(assert") && hasQuantifier(form) {
 					continue
 				}
+				if strings.HasPrefix(form, "(define-fun ") && hasQuantifier(form) {
+					// a quantified definition becomes an uninterpreted symbol in the relaxation
+					if xs := parseSexprs(form); len(xs) == 1 && len(xs[0].Kids) == 5 {
+						var sorts []string
+						for _, p := range xs[0].Kids[2].Kids {
+							sorts = append(sorts, p.Kids[1].String())
+						}
+						fmt.Fprintf(&out, "(declare-fun %s (%s) %s)", xs[0].Kids[1].Atom, strings.Join(sorts, " "), xs[0].Kids[3].String())
+						continue
+					}
+				}
 				out.WriteString(form)
 			}
 		}
@@ -355,6 +367,36 @@ func stripQuantified(text string) string {
 
 func (c *Ctx) Query(g *Goal, getvals []string) string {
 	return c.QueryOpt(g, getvals, qopt{})
+}
+
+// relaxQuantifiers replaces every quantified subformula of a formula by a fresh Boolean constant
+// (declared through decls); candidate search only.
+func relaxQuantifiers(body string, n *int, decls *[]string) string {
+	if !hasQuantifier(body) {
+		return body
+	}
+	xs := parseSexprs(body)
+	if len(xs) != 1 {
+		return "true"
+	}
+	var walk func(s *sx) *sx
+	walk = func(s *sx) *sx {
+		if s.IsAtom {
+			return s
+		}
+		if len(s.Kids) > 0 && s.Kids[0].IsAtom && (s.Kids[0].Atom == "forall" || s.Kids[0].Atom == "exists") {
+			*n++
+			name := fmt.Sprintf("relaxq_%d", *n)
+			*decls = append(*decls, name)
+			return &sx{Atom: name, IsAtom: true}
+		}
+		out := &sx{}
+		for _, k := range s.Kids {
+			out.Kids = append(out.Kids, walk(k))
+		}
+		return out
+	}
+	return walk(xs[0]).String()
 }
 
 func (c *Ctx) QueryOpt(g *Goal, getvals []string, qo qopt) string {
@@ -374,6 +416,7 @@ func (c *Ctx) QueryOpt(g *Goal, getvals []string, qo qopt) string {
 	}
 	b.WriteString(qo.Defs)
 	var ground []string
+	nrelax := 0
 	b.WriteString("\n; ---- facts\n")
 	// relevance slicing: keep every decl; keep facts (cheap and safe).
 	for _, it := range c.Items[:g.upto] {
@@ -384,26 +427,40 @@ func (c *Ctx) QueryOpt(g *Goal, getvals []string, qo qopt) string {
 			if queryNoSoft && it.Soft {
 				continue
 			}
-			if qo.Relaxed && hasQuantifier(it.Body) {
-				continue
+			body := it.Body
+			if qo.Relaxed && hasQuantifier(body) {
+				var decls []string
+				body = relaxQuantifiers(body, &nrelax, &decls)
+				for _, d := range decls {
+					fmt.Fprintf(&b, "(declare-const %s Bool)\n", d)
+				}
 			}
 			if qo.Relaxed {
-				ground = append(ground, it.Body)
+				ground = append(ground, body)
 			}
-			fmt.Fprintf(&b, "(assert %s)\n", it.Body)
+			fmt.Fprintf(&b, "(assert %s)\n", body)
+		}
+	}
+	gGuard, gBody := g.Guard, g.Body
+	if qo.Relaxed {
+		var decls []string
+		gGuard = relaxQuantifiers(gGuard, &nrelax, &decls)
+		gBody = relaxQuantifiers(gBody, &nrelax, &decls)
+		for _, d := range decls {
+			fmt.Fprintf(&b, "(declare-const %s Bool)\n", d)
 		}
 	}
 	if qo.Relaxed {
-		ground = append(ground, g.Guard, g.Body)
+		ground = append(ground, gGuard, gBody)
 		b.WriteString("; ---- ground instances of recursive definitions and prelude axioms (candidate search)\n")
 		b.WriteString(relaxInstances(ground))
 	}
 	b.WriteString("; ---- goal " + g.Name + "\n")
 	if g.ExpectSat {
 		// reachability: guard (and body) must be satisfiable
-		fmt.Fprintf(&b, "(assert %s)\n", And(T(SBool, g.Guard), T(SBool, g.Body)).S)
+		fmt.Fprintf(&b, "(assert %s)\n", And(T(SBool, gGuard), T(SBool, gBody)).S)
 	} else {
-		fmt.Fprintf(&b, "(assert (not %s))\n", Implies(T(SBool, g.Guard), T(SBool, g.Body)).S)
+		fmt.Fprintf(&b, "(assert (not %s))\n", Implies(T(SBool, gGuard), T(SBool, gBody)).S)
 	}
 	b.WriteString("(check-sat)\n")
 	if len(getvals) > 0 {
